@@ -7,7 +7,12 @@
      dict_perm_general        two iteration orders give the same bytes and table when the
                               surviving KEYS are settled and distinct; values may register
      dict_equal_keys_refuted  with two equal key texts the output follows the map order
-     tree_perm, maps_ok, render_tree_perm   the same for Dicts and Tags nested anywhere
+     tree_perm, maps_ok, render_tree_perm   the same for Dicts and Tags nested anywhere, side
+                              condition at the starting table (kept by every registration)
+     pure_maps_ok, render_tree_perm_covered   ... at a covered table: distinct pure key texts
+     maps_okb                 an executable check of maps_ok
+     maps_safe, render_tree_perm_threaded     ... side condition at the table each Dict is
+                              REACHED with (follows the traversal); maps_ok implies it
      occs_iff_rendered_qual   occs = the paths of the rendered qualified identifiers *)
 From Jen Require Import Base.Bytes Base.Sort Model.Code Model.Naming Model.Render Model.FileRender Gen.Tables.
 From Jen Require Import Proofs.NamingProofs Proofs.RenderProofs Proofs.CommentProofs Proofs.EmitProofs
@@ -1274,24 +1279,22 @@ Ltac th_step :=
     [ apply ms_tok | apply ms_com | apply gs_nil | apply ss_nil | apply p2_nil
     | apply ms_group; intros _
     | apply ms_stmt
-    | apply gs_cons;
-      let t0 := fresh "t0" in let E := fresh "E" in let H := fresh "H" in
-      intros t0 E; th_inj E;
-      split; [intros H; vm_compute in H; try discriminate H; clear H
-             | intros H; vm_compute in H; try discriminate H; clear H; split;
-               [| let ta := fresh "ta" in let s := fresh "s" in let E2 := fresh "E" in
-                  intros ta s E2; th_inj E2]]
-    | apply ss_cons;
-      let H := fresh "H" in
-      [intros H; vm_compute in H; try discriminate H; clear H
-      | intros H; vm_compute in H; try discriminate H; clear H; split;
-        [| let c := fresh "ctx" in let ta := fresh "ta" in let s := fresh "s" in let E2 := fresh "E" in
-           intros c ta s E2; destruct c; th_inj E2]]
-    | apply p2_cons;
-      [| let ta := fresh "ta" in let s := fresh "s" in let E := fresh "E" in
-         intros ta s E; th_inj E; split;
-         [| let tb := fresh "tb" in let s' := fresh "s" in let E2 := fresh "E" in
-            intros tb s' E2; th_inj E2]] ].
+    | let t0 := fresh "t0" in let E := fresh "E" in let H := fresh "H" in
+      let ta := fresh "ta" in let s := fresh "s" in let E2 := fresh "E" in
+      (apply gs_cons; intros t0 E; th_inj E;
+       split; [intros H; vm_compute in H; try discriminate H; clear H
+              | intros H; vm_compute in H; try discriminate H; clear H; split;
+                [| intros ta s E2; th_inj E2]])
+    | let H := fresh "H" in
+      let c := fresh "ctx" in let ta := fresh "ta" in let s := fresh "s" in let E2 := fresh "E" in
+      (apply ss_cons;
+       [intros H; vm_compute in H; try discriminate H; clear H
+       | intros H; vm_compute in H; try discriminate H; clear H; split;
+         [| intros c ta s E2; destruct c; th_inj E2]])
+    | let ta := fresh "ta" in let s := fresh "s" in let E := fresh "E" in
+      let tb := fresh "tb" in let s' := fresh "s" in let E2 := fresh "E" in
+      (apply p2_cons;
+       [| intros ta s E; th_inj E; split; [| intros tb s' E2; th_inj E2]]) ].
 
 Lemma th_tree_safe : maps_safe th_cfg [] (th_tree th_pairs).
 Proof.
